@@ -16,16 +16,19 @@ VARIABLES query
 vars == <<tcs, cls, vals, fcs, clsFormats, byName, byId, hist, query>>
 
 Init == /\ tcs = [i \in 1 .. 4 |-> StdTc(CASE i = 1 -> 3 [] i = 2 -> 4 [] i = 3 -> 6 [] i = 4 -> 7)]
-        /\ cls = [i \in 1 .. 4 |-> [kw |-> {}, tc |-> i, idkw |-> IF i <= 2 THEN "id" ELSE "$id", meta |-> "std"]]
+        /\ cls = [i \in 1 .. 4 |-> [kw |-> {}, tc |-> i, idkw |-> IF i <= 2 THEN "id" ELSE "$id", meta |-> "std",
+                                        vt |-> CASE i = 1 -> 3 [] i = 2 -> 4 [] i = 3 -> 6 [] i = 4 -> 7]]
         /\ vals = <<>> /\ fcs = <<>> /\ clsFormats = <<>>
         /\ byName = [x \in {"draft3", "draft4", "draft6", "draft7"} |-> CASE x = "draft3" -> 1 [] x = "draft4" -> 2 [] x = "draft6" -> 3 [] x = "draft7" -> 4]
         /\ byId = [x \in {"std3", "std4", "std6", "std7"} |-> CASE x = "std3" -> 1 [] x = "std4" -> 2 [] x = "std6" -> 3 [] x = "std7" -> 4]
         /\ hist = <<>> /\ query = [done |-> FALSE]
 
 NewIds == <<"new1", "new2", "new3">>
-Register(c) == /\ ~query.done /\ Len(hist) < MaxReg
-               /\ Create(c, NewIds[Len(hist) + 1], NewIds[Len(hist) + 1])
-               /\ UNCHANGED query
+\* the version NAME may be one that an earlier registration used (the name then designates the new class; the earlier
+\* class stays selectable by its own metaschema id)
+Register(c, ver) == /\ ~query.done /\ Len(hist) < MaxReg
+                    /\ Create(c, ver, NewIds[Len(hist) + 1])
+                    /\ UNCHANGED query
 Spellings == { [base |-> b, suf |-> s] : b \in {"std3", "std4", "std6", "std7", "new1", "new2", "new3", "unknown", "nonuri"}, s \in {"", "#", "#/definitions/x"} }
              \cup { [base |-> "absent", suf |-> ""], [base |-> "boolean", suf |-> ""] }
 \* the registry key a spelling normalises to: an empty fragment is dropped, anything else is part of the key
@@ -35,7 +38,7 @@ Query(sp, dflt) ==
   /\ LET r == IF sp.base \in {"absent", "boolean"} THEN [c |-> dflt, warn |-> FALSE] ELSE ValidatorFor(KeyOf(sp), dflt) IN
      query' = [done |-> TRUE, sp |-> sp, dflt |-> dflt, c |-> r.c, warn |-> r.warn]
   /\ UNCHANGED rvars
-Next == \/ \E c \in 1 .. 4 : Register(c)
+Next == \/ \E c \in 1 .. 4, ver \in {"house style", "other style"} : Register(c, ver)
         \/ \E sp \in Spellings, dflt \in {Latest, 1} : Query(sp, dflt)
 Spec == Init /\ [][Next]_vars
 
